@@ -123,11 +123,19 @@ def fuzz_main(args, harness):
       raise
     if state["calls"] % 100 == 0 or state["calls"] >= args.runs:
       flush()
+    if state["calls"] % 200 == 0:
+      # Keras keeps every layer / model ever built reachable through its global
+      # graph and name-uid tables; without this a 30000-execution campaign
+      # outgrows libFuzzer's RSS limit (exit code 71).
+      import gc  # pylint: disable=g-import-not-at-top
+      import tf_keras  # pylint: disable=g-import-not-at-top
+      tf_keras.backend.clear_session()
+      gc.collect()
 
   flush()
   argv = [sys.argv[0], "-runs=%d" % args.runs, "-seed=%d" % max(1, args.seed),
           "-max_len=4096", "-print_final_stats=0", "-verbosity=0",
-          "-len_control=0"]
+          "-len_control=0", "-rss_limit_mb=4096", "-timeout=3600"]
   if args.corpus:
     argv.append(args.corpus)
   atheris.Setup(argv, test_one_input)
